@@ -13,9 +13,13 @@ use lightning_signer::bitcoin::hashes::Hash;
 use lightning_signer::bitcoin::secp256k1::{self, Message, PublicKey, Secp256k1, SecretKey};
 use lightning_signer::bitcoin::sighash::{EcdsaSighashType, SighashCache};
 use lightning_signer::bitcoin::transaction::Version;
+use lightning_signer::bitcoin::consensus::serialize;
 use lightning_signer::bitcoin::{
-    Address, Amount, Network, OutPoint, ScriptBuf, Sequence, Transaction, TxIn, TxOut, Txid, Witness,
+    Address, Amount, Block, Network, OutPoint, ScriptBuf, Sequence, Transaction, TxIn, TxOut, Txid, Witness,
 };
+use lightning_signer::chain::tracker::ChainTracker;
+use lightning_signer::monitor::ChainMonitor;
+use lightning_signer::txoo::proof::{ProofType, TxoProof};
 use lightning_signer::channel::{ChannelId, ChannelSetup, CommitmentType};
 use lightning_signer::lightning::ln::chan_utils::{build_commitment_secret, make_funding_redeemscript};
 use lightning_signer::lightning::types::payment::PaymentHash;
@@ -349,8 +353,52 @@ pub struct ChanWorld {
     pub node_ctx: TestNodeContext,
     pub chan_ctx: TestChannelContext,
     pub setup: SetupNums,
-    /// (height, funding depth, closing depth) as last set by a `chain` op
-    pub chain: (u64, u64, u64),
+    /// the real funding transaction (its txid:0 is the channel's funding outpoint)
+    pub funding_tx: Transaction,
+    /// blocks connected through the real tracker by `blk` ops (tip last)
+    pub blocks: Vec<Block>,
+    /// 0 = chain untouched, 1 = monitor state forced by `chain`, 2 = real blocks (`blk`/`unblk`)
+    pub chain_mode: u8,
+    pub filler: u32,
+    /// monitor's own record: contents already signed (counterparty) / validated (holder), per number
+    pub seen_cp: BTreeSet<String>,
+    pub seen_hold: BTreeSet<String>,
+}
+
+/// Deliver a block connection the way the front end does: compact proof, or streamed when the compact
+/// filter has a false positive (same recipe as the C13–C15 world).
+fn deliver_add(tracker: &mut ChainTracker<ChainMonitor>, block: &Block) -> Result<(), String> {
+    let tip = tracker.tip().clone();
+    let h = tracker.height();
+    let proof = TxoProof::prove_unchecked(block, &tip.1, h + 1);
+    let secp = Secp256k1::new();
+    let watches = tracker.get_all_forward_watches().1;
+    let zero = tip.1.to_byte_array().iter().all(|x| *x == 0);
+    let fp = !zero && proof.verify(h + 1, &block.header, None, &tip.1, &watches, &secp).is_err();
+    if fp {
+        let ext = TxoProof { attestations: proof.attestations.clone(), proof: ProofType::ExternalBlock() };
+        tracker.block_chunk(block.block_hash(), 0, &serialize(block)).map_err(|e| format!("{:?}", e))?;
+        tracker.add_block(block.header, ext).map(|_| ()).map_err(|e| format!("{:?}", e))
+    } else {
+        tracker.add_block(block.header, proof).map(|_| ()).map_err(|e| format!("{:?}", e))
+    }
+}
+
+fn deliver_remove(tracker: &mut ChainTracker<ChainMonitor>, block: &Block) -> Result<(), String> {
+    let prev = tracker.headers()[0].clone();
+    let h = tracker.height();
+    let proof = TxoProof::prove_unchecked(block, &prev.1, h);
+    let secp = Secp256k1::new();
+    let watches = tracker.get_all_reverse_watches().1;
+    let zero = prev.1.to_byte_array().iter().all(|x| *x == 0);
+    let fp = !zero && proof.verify(h, &block.header, None, &prev.1, &watches, &secp).is_err();
+    if fp {
+        let ext = TxoProof { attestations: proof.attestations.clone(), proof: ProofType::ExternalBlock() };
+        tracker.block_chunk(block.block_hash(), 0, &serialize(block)).map_err(|e| format!("{:?}", e))?;
+        tracker.remove_block(ext, prev).map(|_| ()).map_err(|e| format!("{:?}", e))
+    } else {
+        tracker.remove_block(proof, prev).map(|_| ()).map_err(|e| format!("{:?}", e))
+    }
 }
 
 pub struct World {
@@ -518,6 +566,8 @@ impl World {
             }
             "setup" => self.op_setup(idx, &a),
             "chain" => self.op_chain(&a),
+            "blk" => self.op_blk(&a),
+            "unblk" => self.op_unblk(&a),
             "cp" => self.op_cp(idx, &a),
             "hold" => self.op_hold(idx, &a),
             "revoke" => self.op_revoke(&a),
@@ -542,6 +592,17 @@ impl World {
             self.node = Some(node);
         }
         let node = self.node.as_ref().unwrap().clone();
+        {
+            // as `init_channel` does: three easy-difficulty headers on top of the testnet genesis, so that
+            // later real blocks inherit regtest difficulty (and the channel starts at height 3)
+            let mut tracker = node.get_tracker();
+            if tracker.height() == 0 {
+                for _ in 0..3 {
+                    let (header, proof) = make_testnet_header(tracker.tip(), tracker.height());
+                    tracker.add_block(header, proof).unwrap();
+                }
+            }
+        }
         let sn = SetupNums {
             outbound: a[0] != 0, value: a[1], push: a[2], holder_delay: a[3], cp_delay: a[4], ctype: a[5],
             upfront: a[6], up_spend: a[7] != 0, up_allow: a[8] != 0,
@@ -565,11 +626,26 @@ impl World {
             let path = if sn.up_spend { path_of(sn.upfront) } else { DerivationPath::master() };
             (Some(script_of(&node, sn.upfront)), path)
         };
+        // a real funding transaction, so that the chain monitor can see it confirm / be spent
+        let funding_tx = Transaction {
+            version: Version::TWO,
+            lock_time: LockTime::ZERO,
+            input: vec![TxIn {
+                previous_output: OutPoint { txid: Txid::from_slice(&[1u8; 32]).unwrap(), vout: 0 },
+                script_sig: ScriptBuf::new(),
+                sequence: Sequence::MAX,
+                witness: Witness::new(),
+            }],
+            output: vec![TxOut {
+                value: Amount::from_sat(sn.value.min(2_100_000_000_000_000)),
+                script_pubkey: ScriptBuf::new_p2wsh(&lightning_signer::bitcoin::WScriptHash::from_byte_array([7u8; 32])),
+            }],
+        };
         let setup = ChannelSetup {
             is_outbound: sn.outbound,
             channel_value_sat: sn.value,
             push_value_msat: sn.push,
-            funding_outpoint: OutPoint { txid: Txid::from_slice(&[2u8; 32]).unwrap(), vout: 0 },
+            funding_outpoint: OutPoint { txid: funding_tx.compute_txid(), vout: 0 },
             holder_selected_contest_delay: sn.holder_delay as u16,
             holder_shutdown_script: up_script,
             counterparty_points: make_test_counterparty_points(),
@@ -610,7 +686,10 @@ impl World {
                     self.violation(idx, "setup-upfront-script-unknown",
                         format!("upfront shutdown script sid {} neither wallet nor allowlisted", sn.upfront));
                 }
-                self.chan = Some(ChanWorld { node_ctx, chan_ctx, setup: sn, chain: (0, 0, 0) });
+                self.chan = Some(ChanWorld {
+                    node_ctx, chan_ctx, setup: sn, funding_tx, blocks: Vec::new(), chain_mode: 0, filler: 0,
+                    seen_cp: BTreeSet::new(), seen_hold: BTreeSet::new(),
+                });
                 "ok".into()
             }
         }
@@ -645,6 +724,10 @@ impl World {
             Some(c) => c,
             None => return "nochan".into(),
         };
+        if cw.chain_mode == 2 {
+            return "bad-op".into(); // forced state and real blocks are not mixed in one case
+        }
+        cw.chain_mode = 1;
         let funding_outpoint = cw.chan_ctx.setup.funding_outpoint;
         let monitor = {
             let tracker = cw.node_ctx.node.get_tracker();
@@ -669,8 +752,116 @@ impl World {
                 Ok(())
             })
             .unwrap();
-        cw.chain = (h, fd, cd);
-        "ok".into()
+        format!("ok {}", self.real_chain())
+    }
+
+    /// the chain state exactly as the validators get it: `Channel::get_chain_state` = `monitor.as_chain_state()`
+    fn real_chain_state(&self) -> (u64, u64, u64) {
+        let cw = self.chan.as_ref().unwrap();
+        cw.node_ctx
+            .node
+            .with_channel(&cw.chan_ctx.channel_id, |c| {
+                let cs = c.monitor.as_chain_state();
+                Ok((cs.current_height as u64, cs.funding_depth as u64, cs.closing_depth as u64))
+            })
+            .unwrap_or((0, 0, 0))
+    }
+    fn real_chain(&self) -> String {
+        let (h, f, c) = self.real_chain_state();
+        format!("{} {} {}", h, f, c)
+    }
+
+    /// `blk <kind> <h> <fd> <cd>`: connect a real block through the node's tracker.
+    /// kind 0 = unrelated tx only, 1 = contains the funding tx, 2 = contains a tx spending the funding outpoint.
+    /// (h, fd, cd) is what the generator expects afterwards; the line printed carries the real values.
+    fn op_blk(&mut self, a: &[u64]) -> String {
+        if a.len() != 4 || a[0] > 2 {
+            return "bad-op".into();
+        }
+        let cw = match &mut self.chan {
+            Some(c) => c,
+            None => return "nochan".into(),
+        };
+        if cw.chain_mode == 1 {
+            return "bad-op".into();
+        }
+        cw.chain_mode = 2;
+        cw.filler += 1;
+        let filler = Transaction {
+            version: Version::TWO,
+            lock_time: LockTime::ZERO,
+            input: vec![TxIn {
+                previous_output: OutPoint { txid: Txid::from_slice(&[9u8; 32]).unwrap(), vout: cw.filler },
+                script_sig: ScriptBuf::new(),
+                sequence: Sequence::MAX,
+                witness: Witness::new(),
+            }],
+            output: vec![TxOut { value: Amount::from_sat(1000 + cw.filler as u64), script_pubkey: ScriptBuf::new_p2pkh(&lightning_signer::bitcoin::PubkeyHash::from_byte_array([3u8; 20])) }],
+        };
+        let mut txs = vec![filler];
+        match a[0] {
+            1 => txs.push(cw.funding_tx.clone()),
+            2 => txs.push(Transaction {
+                version: Version::TWO,
+                lock_time: LockTime::ZERO,
+                input: vec![TxIn {
+                    previous_output: cw.chan_ctx.setup.funding_outpoint,
+                    script_sig: ScriptBuf::new(),
+                    sequence: Sequence::MAX,
+                    witness: Witness::new(),
+                }],
+                output: vec![TxOut { value: Amount::from_sat(5000), script_pubkey: ScriptBuf::new_p2pkh(&lightning_signer::bitcoin::PubkeyHash::from_byte_array([4u8; 20])) }],
+            }),
+            _ => {}
+        }
+        let node = cw.node_ctx.node.clone();
+        let r = catch_unwind(AssertUnwindSafe(|| {
+            let mut tracker = node.get_tracker();
+            let block = make_block(tracker.tip().0, txs);
+            deliver_add(&mut tracker, &block).map(|_| block)
+        }));
+        match r {
+            Ok(Ok(b)) => {
+                self.chan.as_mut().unwrap().blocks.push(b);
+                format!("ok {}", self.real_chain())
+            }
+            Ok(Err(e)) => format!("blk-refused {}", e),
+            Err(_) => {
+                self.dead = true;
+                "harness-panic blk".into()
+            }
+        }
+    }
+
+    /// `unblk <h> <fd> <cd>`: disconnect the tip block (reorg) through the real tracker
+    fn op_unblk(&mut self, a: &[u64]) -> String {
+        if a.len() != 3 {
+            return "bad-op".into();
+        }
+        let cw = match &mut self.chan {
+            Some(c) => c,
+            None => return "nochan".into(),
+        };
+        if cw.chain_mode != 2 || cw.blocks.is_empty() {
+            return "bad-op".into();
+        }
+        let block = cw.blocks.last().unwrap().clone();
+        let node = cw.node_ctx.node.clone();
+        let r = catch_unwind(AssertUnwindSafe(|| {
+            let mut tracker = node.get_tracker();
+            deliver_remove(&mut tracker, &block)
+        }));
+        match r {
+            Ok(Ok(())) => {
+                self.chan.as_mut().unwrap().blocks.pop();
+                format!("ok {}", self.real_chain())
+            }
+            Ok(Err(e)) => format!("unblk-refused {}", e),
+            Err(_) => {
+                self.dead = true;
+                "harness-panic unblk".into()
+            }
+        }
     }
 
     fn op_cp(&mut self, idx: usize, a: &[u64]) -> String {
@@ -697,6 +888,7 @@ impl World {
         };
         // holder's outgoing HTLCs (received by the counterparty in its commitment) are backed by keysends
         self.add_keysends(&node, &received);
+        let chain_before = self.real_chain_state();
         let r = catch_unwind(AssertUnwindSafe(|| {
             node.with_channel(&cid, |c| {
                 c.sign_counterparty_commitment_tx_phase2(&point, n, cm.feerate as u32, cm.to_holder, cm.to_cp,
@@ -705,7 +897,7 @@ impl World {
         }));
         let (line, ok) = self.finish(r);
         if ok.is_some() {
-            self.monitor_commitment(idx, true, &cm);
+            self.monitor_commitment(idx, true, &cm, chain_before);
         }
         line
     }
@@ -753,6 +945,7 @@ impl World {
             // it looks at the signatures
             _ => (dummy, vec![dummy; nh]),
         };
+        let chain_before = self.real_chain_state();
         let r = catch_unwind(AssertUnwindSafe(|| {
             node.with_channel(&cid, |c| {
                 c.validate_holder_commitment_tx_phase2(n, cm.feerate as u32, cm.to_holder, cm.to_cp, offered.clone(),
@@ -761,7 +954,7 @@ impl World {
         }));
         let (line, ok) = self.finish(r);
         if ok.is_some() {
-            self.monitor_commitment(idx, false, &cm);
+            self.monitor_commitment(idx, false, &cm, chain_before);
         }
         line
     }
@@ -798,11 +991,15 @@ impl World {
     // ------------------------------------------------------------------------------------------
     // C05 monitor: WithinBounds, evaluated with u128 arithmetic on every accepted commitment
     // ------------------------------------------------------------------------------------------
-    fn monitor_commitment(&mut self, idx: usize, is_cp: bool, cm: &Commit) {
+    fn monitor_commitment(&mut self, idx: usize, is_cp: bool, cm: &Commit, chain: (u64, u64, u64)) {
         let p = self.pol.clone();
-        let (sn, chain) = {
-            let cw = self.chan.as_ref().unwrap();
-            (cw.setup.clone(), cw.chain)
+        let sn = self.chan.as_ref().unwrap().setup.clone();
+        // the monitor's own notion of "new": this number was never accepted before with identical content
+        let key = format!("{} {}", cm.n, canonical_body(cm));
+        let is_new = {
+            let cw = self.chan.as_mut().unwrap();
+            let set = if is_cp { &mut cw.seen_cp } else { &mut cw.seen_hold };
+            set.insert(key)
         };
         let who = if is_cp { "counterparty" } else { "holder" };
         // in a counterparty commitment the broadcaster is the counterparty
@@ -888,22 +1085,14 @@ impl World {
                 format!("counterparty commitment signed for channel value {} > max {}", sn.value, p.max_chan));
         }
         // --- on-chain validator: funding buried, not closed ---
-        if p.onchain && p.errs(BIT_ACTIVE_UTXO) && cm.n > 0 {
-            // holder commitments: only *new* ones (n >= next_holder before the call); after acceptance
-            // next_holder is unchanged by validate, so n >= next_holder identifies them.
-            let is_new = if is_cp {
-                true
-            } else {
-                let cw = self.chan.as_ref().unwrap();
-                cw.node_ctx.node.with_channel(&cw.chan_ctx.channel_id, |c| Ok(c.enforcement_state.next_holder_commit_num <= cm.n)).unwrap_or(true)
-            };
-            if is_new && chain.1 < 1 {
+        if p.onchain && p.errs(BIT_ACTIVE_UTXO) && cm.n > 0 && is_new {
+            if chain.1 < 1 {
                 self.violation(idx, "accepted-onchain-unburied",
-                    format!("{} commitment {} accepted by the on-chain validator with funding depth {}", who, cm.n, chain.1));
+                    format!("new {} commitment {} accepted by the on-chain validator with funding depth {} (height {})", who, cm.n, chain.1, chain.0));
             }
-            if is_new && chain.2 > 0 {
+            if chain.2 > 0 {
                 self.violation(idx, "accepted-onchain-closed",
-                    format!("{} commitment {} accepted by the on-chain validator with closing depth {}", who, cm.n, chain.2));
+                    format!("new {} commitment {} accepted by the on-chain validator with closing depth {} (height {})", who, cm.n, chain.2, chain.0));
             }
         }
     }
@@ -1160,6 +1349,15 @@ impl World {
         }
         self.out.tags.insert("close:signed".into());
     }
+}
+
+/// content of a commitment up to the order of its HTLCs (what `CommitmentInfo2` equality sees)
+fn canonical_body(cm: &Commit) -> String {
+    let mut o: Vec<(u64, usize, u64)> = cm.offered.iter().enumerate().map(|(i, (v, e))| (*v, i, *e)).collect();
+    let mut r: Vec<(u64, usize, u64)> = cm.received.iter().enumerate().map(|(i, (v, e))| (*v, i, *e)).collect();
+    o.sort();
+    r.sort();
+    format!("{} {} {} {:?} {:?}", cm.feerate, cm.to_holder, cm.to_cp, o, r)
 }
 
 /// BOLT-3 / LDK output order: by value, then script bytes; no zero-value outputs
